@@ -13,3 +13,6 @@ func ZZIntegerFromBig(b *big.Int) (v Integer) {
 	v.i.Set(b)
 	return
 }
+
+// ZZBig returns the amount as a mathematical integer (harness helper).
+func (x Integer) ZZBig() *big.Int { return new(big.Int).Set(&x.i) }
